@@ -678,6 +678,10 @@ class ExprMixin:
                         raise Unsupported(f'unset slot {attr}')
                     return v
             raise Unsupported(f'attribute {attr} of {base.pycls.__name__ if base.pycls else base.sort}: not a declared field')
+        if z3.is_expr(base) and base.sort().name() in self.zs.rec_by_sort:
+            dt, S = self.zs.rec_by_sort[base.sort().name()]
+            if attr in S.fields:
+                return simp(dt.accessor(0, list(S.fields).index(attr))(base))
         if isinstance(base, (VBox, PyList, PyDict, VMatch)) or z3.is_expr(base):
             return BoundMethod(base, attr)
         if isinstance(base, VObj):
